@@ -123,7 +123,8 @@ func (u *executeUnit) coRun(cycle int, ctx *risc.Context, app risc.Application) 
 	if execution.PcChange && u.bu.shouldFlushPipeline(execution.NextPc) {
 		log.Infoi(ctx, "EU", u.runner.Runner.InstructionType(), u.runner.Pc,
 			"should be a flush")
-		return true, u.runner.Pc, execution.NextPc, false, nil
+		// The write units compare sequence IDs, not program counters
+		return true, u.runner.SequenceID, execution.NextPc, false, nil
 	}
 
 	return false, 0, 0, false, nil
